@@ -121,6 +121,23 @@ def _cases(part, tier):
             for t in G.trees(n):
                 for z in G.with_minus(t):
                     yield 'B%d-minus' % n, (('print', z),)
+    elif part == 'E':
+        # user names that coincide with the names the built-ins use internally for their parameters must not matter
+        names = ('x', 'theta', 'min', 'max', 'y', 'n', 'value', 'a', 'b', 'angle')
+        calls = [('round', (N(2.6),)), ('floor', (N(2.6),)), ('ceil', (N(2.2),)), ('trunc', (N(2.6),)), ('sqrt', (N(16),)),
+                 ('sin', (N(30),)), ('cos', (N(60),)), ('tan', (N(45),)), ('asin', (N(0.5),)), ('acos', (N(0.5),)),
+                 ('atan', (N(1),)), ('cycle', (N(365),))]
+        for nm in names:
+            binders = [
+                lambda body, nm=nm: (('defmacro', nm, N(77)),) + body,
+                lambda body, nm=nm: (('assign', nm, N(77)),) + body,
+                lambda body, nm=nm: (('define', 'outer', (nm,), body), ('callst', 'outer', (N(77),), False)),
+                lambda body, nm=nm: (('define', 'outer', (), (('assign', nm, N(77)),) + body), ('callst', 'outer', (), False)),
+                lambda body, nm=nm: (('repeat', ('range', nm, N(77), N(77)), body),),
+            ]
+            for fn, args in calls:
+                for bind in binders:
+                    yield 'E', bind((('print', ('call', fn, args)), ('print', ('bin', '+', ('call', fn, args), N(1)))))
     elif part == 'B4':
         for t in G.trees(4, ('^', '*', '/', '-', '<', '==', 'and', 'or')):
             yield 'B4', (('print', t),)
@@ -291,7 +308,7 @@ def _random_pair(args):
 
 def run(tier, seed):
     rep = Report()
-    parts = ['A1', 'A2', 'B3'] + (['B4'] if tier == 'thorough' else [])
+    parts = ['A1', 'A2', 'B3', 'E'] + (['B4'] if tier == 'thorough' else [])
     tot = dict(cases=0, ok=0, undefined=0, steps=0)
     values = set()
     viol = {}
